@@ -179,7 +179,7 @@ def _kinds():
 
 def unit_list_steps():
     from pyvc.explore import Ctx
-    from pyvc.interp import PathEnd
+    from pyvc.interp import PathEnd, Unsupported
     from pyvc.loops import OneStepLoop
 
     Pm = P()
@@ -190,7 +190,7 @@ def unit_list_steps():
     def ob(name, ok, detail=""):
         u.obligations.append({"name": f"C14/STEPS/{name}", "kind": "step", "site": "pretty/unmarshal.py:pretty_list_elems", "status": "proved" if ok else "refuted", "backend": "evaluation", "seconds": 0, "model": None, "detail": detail})
 
-    def run_case(parent, loop_ord, state, nxt):
+    def run_case(parent, loop_ord, state, nxt, seed=None):
         ctx = Ctx()
         rows = []
 
@@ -207,37 +207,58 @@ def unit_list_steps():
             yield
 
         it = iter([nxt] if nxt is not None else [])
-        I = Interp(ctx, stubs={Pm.pretty: pretty_stub, Pm.format: format_stub}, loop_specs={("pretty_list_elems", loop_ord): OneStepLoop(state, kind="while")})
+        I = Interp(ctx, stubs={Pm.pretty: pretty_stub, Pm.format: format_stub}, loop_specs={("pretty_list_elems", "while", loop_ord): OneStepLoop(state, kind="while", seed_empty_lists=seed)})
         g = run_sync(I.call(Pm.pretty_list_elems, (parent, it), {}))
         ys = []
+
+        def deferred(loc):
+            names = ctx.ghost.get("step_seeded") or []
+            if len(names) > 1:
+                raise Unsupported(f"more than one list accumulator in pretty_list_elems: {names}")
+            return list(loc[names[0]]) if names and loc is not None else []
+
         try:
             while True:
                 ys.append(g.g.send(None))
         except StopIteration as e:
-            return ys, ("return", e.value), None
+            return ys, ("return", e.value), {"__deferred__": []}
         except PathEnd:
-            return ys, ("next-iteration",), ctx.ghost["step"]["locals"]
+            loc = ctx.ghost["step"]["locals"]
+            loc["__deferred__"] = deferred(loc)
+            return ys, ("next-iteration",), loc
         except PyExc as e:
             return ys, ("raise", repr(e.exc)), None
 
-    # ---- byte buffers
+    # ---- byte buffers.  Abstract state of the loop: the bytes collected so far (B) and the warnings held back so far (D,
+    # empty if the code holds none back).  A warning may be shown at once or held back until the buffer's row has been
+    # printed (the statement fixes neither); warnings keep their order and none is shown twice or lost.
     parent = ME(root / PN("buf"), list[A["BYTE"]], ...)
     B = AbsBuf([Tok("earlier")])
     t = Tok("this")
     child = ME(root / PN("buf", index=3), A["BYTE"], FakeVal(t))
     info = A["WarningEvent"](error=A["err"]("w"))
+    info0 = A["WarningEvent"](error=A["err"]("w-earlier"))
     others = {"struct": ME(root / PN("next"), A["Command"], ...), "primitive": ME(root / PN("next"), A["UINT16"], A["UINT16"](7)),
               "list-parent": ME(root / PN("next"), list[A["TPM_CC"]], ...), "deeper-same-name": ME(root / PN("x") / PN("buf"), A["BYTE"], FakeVal(Tok("no")))}
-    ys, out, loc = run_case(parent, 0, {"child_buffer": B}, child)
-    ob("buffer/child-is-appended-and-nothing-printed", ys == [] and out == ("next-iteration",) and isinstance(loc.get("child_buffer"), AbsBuf) and loc["child_buffer"].parts == B.parts + [t], f"{ys} {out}")
-    ys, out, loc = run_case(parent, 0, {"child_buffer": B}, info)
-    ob("buffer/warning-between-elements-is-one-row-and-the-buffer-is-kept", ys == [("ROW", info)] and out == ("next-iteration",) and loc.get("child_buffer") is B, f"{ys} {out}")
-    ys, out, loc = run_case(parent, 0, {"child_buffer": B}, None)
-    okrow = len(ys) == 1 and ys[0][0] == "BUFROW" and ys[0][1] is parent.type and ys[0][2] == parent.path and ys[0][3] is B
-    ob("buffer/end-of-stream-prints-the-one-buffer-row-with-all-collected-bytes", okrow and out == ("return", None), f"{ys} {out}")
+    # which accumulator (if any) holds warnings back: found by seeding
+    ys, out, loc = run_case(parent, 0, {"child_buffer": B}, None, seed=[info0])
+    holds_back = ys[1:] == [("ROW", info0)]
+    D = [info0] if holds_back else []
+    seed = [info0] if holds_back else None
+    rowsD = [("ROW", x) for x in D]
+    ys, out, loc = run_case(parent, 0, {"child_buffer": B}, child, seed)
+    okbuf = loc is not None and isinstance(loc.get("child_buffer"), AbsBuf) and loc["child_buffer"].parts == B.parts + [t]
+    ok = out == ("next-iteration",) and okbuf and ((ys == [] and loc["__deferred__"] == D) or (ys == rowsD and loc["__deferred__"] == []))
+    ob("buffer/child-is-appended-and-nothing-but-held-back-warnings-printed", ok, f"{ys} {out}")
+    ys, out, loc = run_case(parent, 0, {"child_buffer": B}, info, seed)
+    ok = out == ("next-iteration",) and loc.get("child_buffer") is B and ((ys == [("ROW", info)] and D == [] and loc["__deferred__"] == []) or (ys == [] and loc["__deferred__"] == D + [info]))
+    ob("buffer/warning-between-elements-is-one-row-now-or-after-the-buffer-row-and-the-buffer-is-kept", ok, f"{ys} {out} held back: {loc and loc['__deferred__']}")
+    ys, out, loc = run_case(parent, 0, {"child_buffer": B}, None, seed)
+    okrow = len(ys) >= 1 and ys[0][0] == "BUFROW" and ys[0][1] is parent.type and ys[0][2] == parent.path and ys[0][3] is B and ys[1:] == rowsD
+    ob("buffer/end-of-stream-prints-the-one-buffer-row-with-all-collected-bytes-then-the-held-back-warnings", okrow and out == ("return", None), f"{ys} {out}")
     for nm, ev in others.items():
-        ys, out, loc = run_case(parent, 0, {"child_buffer": B}, ev)
-        okrow = len(ys) == 1 and ys[0][0] == "BUFROW" and ys[0][2] == parent.path and ys[0][3] is B
+        ys, out, loc = run_case(parent, 0, {"child_buffer": B}, ev, seed)
+        okrow = len(ys) >= 1 and ys[0][0] == "BUFROW" and ys[0][2] == parent.path and ys[0][3] is B and ys[1:] == rowsD
         ob(f"buffer/next-{nm}-event-ends-the-buffer-and-is-handed-back", okrow and out[0] == "return" and out[1] is ev, f"{ys} {out}")
     # ---- other lists
     parent = ME(root / PN("lst"), list[A["TPM_CC"]], ...)
@@ -415,7 +436,8 @@ def streams(maxlen):
 def spec_rows(evs, desc):
     """expected rows (from the property statement): list of ('row', event) | ('buffer', parent, bytes) | ('info', event) |
     ('bits', event) | ('optional', event); buffers stand at the position of their last element (of the parent when empty);
-    an info event arriving between two elements may come before the buffer row, one after the last element must come after"""
+    an info event arriving between two elements may come before or after the buffer row (in order, each once), one after the
+    last element must come after"""
     rows = []
     i = 0
     n = len(desc)
@@ -443,10 +465,8 @@ def spec_rows(evs, desc):
                 if desc[k][0] == "elem-of-buffer":
                     last_elem_pos = k
                 k += 1
-            for m in range(i + 1, last_elem_pos + 1):
-                if desc[m][0] == "info":
-                    rows.append(("info", desc[m][1]))
-            rows.append(("buffer", d[1], b"".join(e.value.to_bytes() for e in elems)))
+            mid = [desc[m][1] for m in range(i + 1, last_elem_pos + 1) if desc[m][0] == "info"]
+            rows.append(("buffer", d[1], b"".join(e.value.to_bytes() for e in elems), mid))
             i = last_elem_pos
         i += 1
     return rows
@@ -531,8 +551,17 @@ def check_stream(symbols):
                 return f"row {i}: {g} expected {want}"
         elif e[0] == "buffer":
             ev = e[1]
+            mid = list(e[3])
+            while mid and i < len(out) and out[i] == ("info", str(mid[0])):
+                mid.pop(0)
+                i += 1
+            g = out[i] if i < len(out) else ("missing",)
             if g[0] != "row" or g[3] != str(ev.path[-1]) or g[4] != e[2].hex() or g[2] != len(ev.path) - 1:
                 return f"row {i}: byte buffer {ev.path} expected one row with hex {e[2].hex()!r}, got {g}"
+            for w in mid:
+                i += 1
+                if i >= len(out) or out[i] != ("info", str(w)):
+                    return f"row {i}: warning {str(w)!r} between the elements of {ev.path} is not shown exactly once around the buffer row"
         i += 1
     while (pending_optional or required_later) and i < len(out):
         if pending_optional and is_optional_row(out[i], pending_optional[0]):
@@ -600,7 +629,7 @@ def run(tier, seed, only=None):
     rep = Report("C14", tier, seed, "other", "./check C14 (pyvc: row layout by symbolic execution; stream level by exhaustive enumeration of abstract event streams up to a length bound)",
                  explanation="proof obligations for the row layout (format / pretty / format_info over symbolic bytes, opaque value text, every path depth 1..8) and the attribute bit rows (C17 units); the stream level (list folding, order, one row per event, events printer) is decided only up to a bound: all abstract event streams of <= N events over the alphabet of event kinds the printers branch on, real printers against a spec printer written from the statement")
     rep.trusted_base = ["pyvc's reading of Python", "ANSI colour codes of colorama delimit the columns (used to parse real rows)", "the alphabet of event kinds covers every predicate the printer code branches on (is MarshalEvent, is list, element type BYTE, is child of the current parent, has attributes)"]
-    rep.assumptions = ["a non-empty non-byte list may or may not get a row for its parent event (it is visible through its elements); an empty one must be shown", "row order rule: a buffer's row stands at the position of its last element; infos between elements may precede it"]
+    rep.assumptions = ["a non-empty non-byte list may or may not get a row for its parent event (it is visible through its elements); an empty one must be shown", "row order rule: a buffer's row holds all its bytes; warnings between its elements may stand before or after it (in order), warnings after its last element stand after it"]
     rep.replayer = replayer
     jobs = [(unit_format, ()), (unit_pretty, ()), (unit_list_steps, ()), (unit_main_steps, ())]
     jobs += [(c17.unit_rows, (t.__name__,)) for t in c17.tpma_types()]
